@@ -574,6 +574,46 @@ def run_struct(ctx, i, layout, rng):
     ctx.check(same_static(g) and all(np.allclose(float(getattr(g, n)), 2 * float(vals[n])) for n in data_names), 'struct.grad', None)
 
 
+def run_pytree_protocol(ctx, i, rng):
+  """The pytree protocol as a way in: tree functions with is_leaf hand out the children a FrozenDict flattens to, and tree_map /
+  tree_unflatten build a FrozenDict from values the caller still holds. Neither may make a FrozenDict change afterwards.
+  Own stream and mechanisms - see known finding C15-pytree-protocol-aliasing."""
+  import jax
+  from flax.core import FrozenDict, freeze
+  depth = 1 + i % 3
+  via = ['FrozenDict', 'freeze'][(i // 3) % 2]
+  desc = dict(depth=depth, via=via)
+  with ctx.case('pytree_protocol', i, desc, nontrivial=True):
+    def mk():
+      src = {'w': 1, 'sub': {'x': 2}}
+      for k in range(depth - 1):
+        src = {'p%d' % k: src, 'n': k}
+      return FrozenDict(src) if via == 'FrozenDict' else freeze(src)
+    # 1. what flatten hands to is_leaf / returns as leaves
+    fd = mk()
+    g0 = golden(fd)
+    h0 = hash(fd)
+    leaves = jax.tree_util.tree_leaves(fd, is_leaf=lambda x: isinstance(x, dict))
+    ctx.op('tree_leaves(FrozenDict, is_leaf=dict)')
+    poison(ctx, leaves)
+    ctx.check(golden(fd) == g0 and hash(FrozenDict(fd.unfreeze())) == h0, 'pytree_protocol:flatten_hands_out_internal_dict',
+              lambda: dict(case=desc, now=repr(golden(fd))[:200]))
+    # 2. a FrozenDict built by tree_map from a dict the caller keeps
+    fd = mk()
+    shared = {'lr': 0.1, 'opt': {'b1': 0.9}}
+    built = jax.tree_util.tree_map(lambda _: shared, fd)
+    ctx.op('tree_map(-> dict, FrozenDict)')
+    g0 = golden(built)
+    h0 = hash(built)
+    shared['lr'] = 'CHANGED'
+    shared['opt']['b1'] = 'CHANGED'
+    ctx.check(golden(built) == g0, 'pytree_protocol:unflatten_shares_leaf_dict', lambda: dict(case=desc, now=repr(golden(built))[:200]))
+    ctx.check(hash(built) == h0 == hash(FrozenDict(built.unfreeze())), 'pytree_protocol:unflatten_shares_leaf_dict', lambda: dict(case=desc, what='hash of an equal value differs'))
+    # control: fresh dicts per leaf, nobody else holds them
+    built2 = jax.tree_util.tree_map(lambda v: {'v': v}, mk())
+    ctx.check(isinstance(built2, FrozenDict) and isinstance(built2['w' if depth == 1 else 'n'], FrozenDict), 'pytree:tree_map_dict_leaves_not_frozen_on_read', lambda: dict(case=desc))
+
+
 def run(ctx):
   pool_ref = [None]
   install_invariant(ctx, pool_ref)
@@ -589,6 +629,8 @@ def run(ctx):
   small_scope(ctx, pool_ref)
   for i in ctx.indices(16, 'dict_in_sequence'):
     run_dict_in_sequence(ctx, i, ctx.rng('dict_in_sequence', i))
+  for i in ctx.indices(12, 'pytree_protocol'):
+    run_pytree_protocol(ctx, i, ctx.rng('pytree_protocol', i))
 
   layouts = []
   for n in range(1, 6):
